@@ -2,6 +2,7 @@ SPECIFICATION Spec
 CONSTANTS
   Script <- ScriptQ
   Thresh = 1
+  SatInit = FALSE
   MaxLow = 256
-INVARIANTS ExecAtMostOnce ExecOnlyAccepted NoLostWakeup HighPrioFIFO EdgeImpliesFlag CountersLag
+INVARIANTS ExecAtMostOnce ExecOnlyAccepted NoLostWakeup HighPrioFIFO EdgeImpliesFlag CountersLag ShutdownIsFinal
 CHECK_DEADLOCK FALSE
